@@ -137,7 +137,7 @@ func buildTools() string {
 	bin := filepath.Join(root, ".cache/bin/simgen")
 	h := sha256.New()
 	fileHash(h, filepath.Join(root, "simgen/main.go"))
-	fileHash(h, filepath.Join(root, "go.mod"))
+	fileHash(h, filepath.Join(root, "simgen/go.mod"))
 	stamp := fmt.Sprintf("%x", h.Sum(nil)[:8])
 	stampFile := bin + ".stamp"
 	if b, err := os.ReadFile(stampFile); err == nil && string(b) == stamp {
@@ -146,7 +146,7 @@ func buildTools() string {
 		}
 	}
 	os.MkdirAll(filepath.Dir(bin), 0o755)
-	out, err := run(root, 10*time.Minute, "go", "build", "-o", bin, "./simgen")
+	out, err := run(filepath.Join(root, "simgen"), 10*time.Minute, "go", "build", "-o", bin, ".")
 	if err != nil {
 		die(2, "building simgen failed: %v\n%s", err, out)
 	}
@@ -341,6 +341,8 @@ type result struct {
 	FirstSeed   int64             `json:"first_seed"`
 	LastSeed    int64             `json:"last_seed"`
 	PerSeedHash map[string]string `json:"per_seed_hash"`
+	Restart     bool              `json:"restart"`
+	NextSeed    int64             `json:"next_seed"`
 }
 
 type replayFile struct {
@@ -576,17 +578,44 @@ func explore(prop string, eng *engineDef, tier string) int {
 	}
 	base := seedBase()
 	var wg sync.WaitGroup
-	outs := make([]string, nworkers)
-	errs := make([]error, nworkers)
-	logs := make([]string, nworkers)
+	var outMu sync.Mutex
+	var outs []string
+	var errs []error
+	var logs []string
+	deadline := time.Now().Add(time.Duration(budget * float64(time.Second)))
 	for i := 0; i < nworkers; i++ {
-		outs[i] = filepath.Join(scratch, fmt.Sprintf("w%d.jsonl", i))
-		sp := spec{Mode: "explore", SeedStart: base*100_000_000 + int64(i), SeedStep: int64(nworkers), BudgetSec: budget, Out: outs[i], KeepOK: 1, Property: prop}
 		wg.Add(1)
-		go func(i int, sp spec) {
+		go func(i int) {
 			defer wg.Done()
-			logs[i], errs[i] = worker(bin, sp, 0, time.Duration(budget*float64(time.Second))+5*time.Minute)
-		}(i, sp)
+			// one slot = a sequence of worker processes over one arithmetic progression of seeds; a worker
+			// hands over to a fresh process when the goroutines leaked by aborted runs use too much memory
+			seed := base*100_000_000 + int64(i)
+			for k := 0; ; k++ {
+				left := time.Until(deadline).Seconds()
+				if left < 1 && k > 0 {
+					return
+				}
+				if left < 1 {
+					left = 1
+				}
+				out := filepath.Join(scratch, fmt.Sprintf("w%d-%d.jsonl", i, k))
+				sp := spec{Mode: "explore", SeedStart: seed, SeedStep: int64(nworkers), BudgetSec: left, Out: out, KeepOK: 1, Property: prop}
+				log, err := worker(bin, sp, 0, time.Duration(left*float64(time.Second))+5*time.Minute)
+				outMu.Lock()
+				outs = append(outs, out)
+				errs = append(errs, err)
+				logs = append(logs, log)
+				outMu.Unlock()
+				if err != nil {
+					return
+				}
+				_, sum, rerr := readResults(out)
+				if rerr != nil || sum == nil || !sum.Restart {
+					return
+				}
+				seed = sum.NextSeed
+			}
+		}(i)
 	}
 	wg.Wait()
 	// aggregate
@@ -607,7 +636,7 @@ func explore(prop string, eng *engineDef, tier string) int {
 	}
 	groups := map[string]*group{}
 	harnessTrouble := ""
-	for i := 0; i < nworkers; i++ {
+	for i := range outs {
 		runs, sum, err := readResults(outs[i])
 		if errs[i] != nil || err != nil || sum == nil {
 			harnessTrouble = fmt.Sprintf("worker %d: %v %v\n%s", i, errs[i], err, logs[i])
@@ -953,6 +982,9 @@ var engineMeta = map[string]meta{
 		stub: []string{"thin counting wrappers around processors and exporters"}, assumptions: commonAssumptions},
 	"globalsim": {real: []string{"go.opentelemetry.io/otel (trace.go, metric.go, propagation.go) and internal/global (state, trace, meter, instruments, propagator) instrumented by simgen from the current working tree", "real sdk/trace and sdk/metric as the installed delegates"},
 		stub: []string{"recording SpanProcessor; overlay-added VerifReset (same body as the test-only ResetForTest) puts the process globals back between runs"}, assumptions: commonAssumptions},
+	"otlpretry": {real: []string{"the six OTLP exporters (otlptracehttp, otlptracegrpc, otlpmetrichttp, otlpmetricgrpc, otlploghttp, otlploggrpc) with their internal/retry, instrumented by simgen from the current working tree", "real net/http client and server, real gRPC client and server, real cenkalti/backoff, running inside the bubble on fake time"},
+		stub: []string{"the collector's handlers (scripted status / Retry-After / RetryInfo / latency / partial success)", "the transport: net.Pipe connections handed to an in-bubble listener, with scripted temporary dial errors (HTTP dial seam added by a build-overlay file, gRPC through the public WithDialOption)"},
+		assumptions: append([]string{"goroutines of net/http and gRPC are not scheduled by the simulator (they run to quiescence between scheduler steps); one export call is in flight at a time"}, commonAssumptions...)},
 	"logbatch": {real: []string{"sdk/log (batch.go, exporter.go, ring.go, logger.go, record.go, provider.go) instrumented by simgen from the current working tree", "internal/global"},
 		stub: []string{"log.Exporter (scripted: ok/error/slow/hang-until-ctx)", "a second Processor that mutates the record it is given"}, assumptions: commonAssumptions},
 }
